@@ -243,6 +243,36 @@ func runC18(r *Report) {
 		r.Ob("R18c", fn, "cross-slot-panics", fn.Pos(), nPanic == 1, "keys in different slots are rejected by a panic")
 	}
 
+	// callers of slot helpers: the helper is handed the command's current slot and its answer is
+	// stored back into the same command
+	for _, fn := range p.ModuleFuncs() {
+		if !strings.HasPrefix(FuncName(fn), "rueidis/internal/cmds.") {
+			continue
+		}
+		for _, cs := range Sites(fn, func(in ssa.Instruction) bool {
+			c, ok := in.(*ssa.Call)
+			return ok && slotHelperParam(c.Call.StaticCallee()) != nil && len(CallSites(c.Call.StaticCallee(), "rueidis/internal/cmds.slot")) > 0
+		}) {
+			call := cs.Instr.(*ssa.Call)
+			h := call.Call.StaticCallee()
+			hp := slotHelperParam(h)
+			okArg, okStore := false, false
+			for k, prm := range h.Params {
+				if prm == hp && k < len(call.Call.Args) {
+					okArg = strings.HasSuffix(Desc(call.Call.Args[k]), ".ks")
+				}
+			}
+			for _, ref := range *call.Referrers() {
+				if st, ok := ref.(*ssa.Store); ok && st.Val == ssa.Value(call) {
+					if _, f, _, isf := FieldRef(st.Addr); isf && f == "ks" {
+						okStore = true
+					}
+				}
+			}
+			r.ObSite("R18b", cs, "slot-helper-updates-own-command", okArg && okStore, "a slot helper is handed the command's current slot field and its answer is stored back into it")
+		}
+	}
+
 	// R18b: shape of every slot() use
 	nUse, nVar := 0, 0
 	for _, fn := range p.ModuleFuncs() {
@@ -269,7 +299,7 @@ func runC18(r *Report) {
 			r.ObSite("R18b", s, "slot-use-shape", okShape, why)
 		}
 		// variadic keys: the checking arm must visit every key (a range loop without an early exit)
-		if fn.Signature.Variadic() {
+		if fn.Signature.Variadic() || slotHelperParam(fn) != nil {
 			nVar++
 			okAll := true
 			for _, s := range sites {
@@ -322,7 +352,24 @@ func runC18(r *Report) {
 
 // slotUseShape: the result of slot(k) is either or-ed with NoSlot and stored into the receiver's
 // ks under `ks&NoSlot == NoSlot`, or passed to check(ks, ·) whose result is stored into ks.
+// slotHelperParam: fn is an unexported package-level function that is handed a command's slot value
+// (uint16) and returns the updated one: `c.ks = mgetKeysSlot(c.ks, key)`.
+func slotHelperParam(fn *ssa.Function) *ssa.Parameter {
+	if fn == nil || fn.Signature.Recv() != nil || isExportedName(fn.Name()) || fn.Signature.Results().Len() != 1 || shortType(fn.Signature.Results().At(0).Type()) != "uint16" {
+		return nil
+	}
+	for _, p := range fn.Params {
+		if shortType(p.Type()) == "uint16" {
+			return p
+		}
+	}
+	return nil
+}
+
 func slotUseShape(s Site, call *ssa.Call) (bool, string) {
+	if hp := slotHelperParam(s.Fn); hp != nil {
+		return slotUseShapeInHelper(s, call, hp)
+	}
 	isKs := func(addr ssa.Value) bool {
 		_, f, _, ok := FieldRef(addr)
 		return ok && f == "ks"
@@ -442,6 +489,24 @@ func jsonKeyCrossCheck(r *Report, tpkg *types.Package, info *types.Info, files [
 			}
 		}
 	}
+	// unexported package-level functions (no receiver) that call slot() on their arguments
+	slotHelpers := map[string]bool{}
+	for _, f := range files {
+		for _, d := range f.Decls {
+			fd, ok := d.(*ast.FuncDecl)
+			if !ok || fd.Recv != nil || fd.Body == nil || ast.IsExported(fd.Name.Name) || fd.Name.Name == "slot" {
+				continue
+			}
+			ast.Inspect(fd.Body, func(n ast.Node) bool {
+				if ce, ok := n.(*ast.CallExpr); ok {
+					if id, ok := ce.Fun.(*ast.Ident); ok && id.Name == "slot" {
+						slotHelpers[fd.Name.Name] = true
+					}
+				}
+				return true
+			})
+		}
+	}
 	slotParams := func(root string) map[string]bool {
 		out := map[string]bool{}
 		seen := map[string]bool{}
@@ -456,6 +521,20 @@ func jsonKeyCrossCheck(r *Report, tpkg *types.Package, info *types.Info, files [
 				if fd := decl[t.Obj().Name()][m.Name()]; fd != nil {
 					ast.Inspect(fd.Body, func(n ast.Node) bool {
 						if ce, ok := n.(*ast.CallExpr); ok {
+							// a package-level helper that computes slots for the keys it is handed
+							if id, ok := ce.Fun.(*ast.Ident); ok && slotHelpers[id.Name] {
+								for _, arg := range ce.Args {
+									if a, ok := arg.(*ast.Ident); ok {
+										for _, fl := range fd.Type.Params.List {
+											for _, nn := range fl.Names {
+												if nn.Name == a.Name {
+													out[normName(a.Name)] = true
+												}
+											}
+										}
+									}
+								}
+							}
 							if id, ok := ce.Fun.(*ast.Ident); ok && id.Name == "slot" && len(ce.Args) == 1 {
 								if a, ok := ce.Args[0].(*ast.Ident); ok {
 									isParam := false
@@ -602,4 +681,88 @@ func setSlotRule(r *Report) {
 		r.ObSite("R18e", s, "slot-bits-replaced-by-slot-of-key", ok, "SetSlot stores slot(key), or NoSlot|slot(key) where the NoSlot mark was set; no other bit of the previous value survives: "+DescDeep(st.Val))
 	}
 	r.Anchor("R18e", "SetSlot: stores to ks (>= 1)", n >= 1)
+}
+
+// slotUseShapeInHelper: the two-arm shape on the helper's slot parameter; "stored into ks" becomes
+// "returned" (directly or through the loop-carried variable).
+func slotUseShapeInHelper(s Site, call *ssa.Call, hp *ssa.Parameter) (bool, string) {
+	var reachesReturn func(v ssa.Value, depth int) bool
+	reachesReturn = func(v ssa.Value, depth int) bool {
+		refs := v.Referrers()
+		if refs == nil || depth > 4 {
+			return false
+		}
+		for _, ref := range *refs {
+			switch x := ref.(type) {
+			case *ssa.Return:
+				return true
+			case *ssa.Phi:
+				if reachesReturn(x, depth+1) {
+					return true
+				}
+			}
+		}
+		return false
+	}
+	var isCur func(v ssa.Value, depth int) bool // the parameter or the loop-carried value derived from it
+	isCur = func(v ssa.Value, depth int) bool {
+		if v == ssa.Value(hp) {
+			return true
+		}
+		if ph, ok := v.(*ssa.Phi); ok && depth < 3 {
+			for _, e := range ph.Edges {
+				if e == ssa.Value(ph) {
+					continue
+				}
+				if c, isc := e.(*ssa.Call); isc && CalleeName(c) == "rueidis/internal/cmds.check" {
+					continue
+				}
+				if !isCur(e, depth+1) {
+					return false
+				}
+			}
+			return true
+		}
+		return false
+	}
+	noSlotGuard := func(want token.Token) bool {
+		return Guarded(s.Block, func(g Guard) bool {
+			y, op, z, cok := CmpGuard(g)
+			kk, isk := ConstInt(z)
+			if !cok || op != want || !isk || kk != 1<<15 {
+				return false
+			}
+			bo, isb := y.(*ssa.BinOp)
+			if !isb || bo.Op != token.AND {
+				return false
+			}
+			m, ism := ConstInt(bo.Y)
+			return ism && m == 1<<15 && bo.X == ssa.Value(hp)
+		})
+	}
+	for _, ref := range *call.Referrers() {
+		switch x := ref.(type) {
+		case *ssa.BinOp:
+			if x.Op == token.OR {
+				k, isc := ConstInt(x.X)
+				if !isc {
+					k, isc = ConstInt(x.Y)
+				}
+				if isc && k == 1<<15 {
+					if reachesReturn(x, 0) && noSlotGuard(token.EQL) {
+						return true, "NoSlot arm (helper)"
+					}
+					return false, "in a slot helper NoSlot|slot(k) must be returned under ks&NoSlot == NoSlot of the slot it was handed"
+				}
+			}
+		case *ssa.Call:
+			if CalleeName(x) == "rueidis/internal/cmds.check" {
+				if isCur(x.Call.Args[0], 0) && x.Call.Args[1] == ssa.Value(call) && reachesReturn(x, 0) && noSlotGuard(token.NEQ) {
+					return true, "checking arm (helper)"
+				}
+				return false, "in a slot helper check(ks, slot(k)) must take the slot it was handed (or the value carried from the previous key), be returned, and sit on the non-NoSlot arm"
+			}
+		}
+	}
+	return false, "the slot of a key is computed but neither merged with NoSlot nor passed to check"
 }
